@@ -1750,7 +1750,7 @@ class Model_from_InPulse(Model):
             amplitude = np.sqrt(ampl) * np.exp(1.0j * phase)
             if len(self.parameters_names) >= 2:
                 self.functions_columns[column] = LinearNDInterpolator(
-                    parameters_values, amplitude
+                    parameters_values, amplitude, rescale=True
                 )
             else:
                 self.functions_columns[column] = interp1d(
